@@ -2,7 +2,14 @@
 # Regenerates MANIFEST.json from the table below (one entry per claimed property).
 import json
 SC="stateless model checking of the implementation under a controlled scheduler (iterative preemption/delay bounding)"
+ENUM="bounded-exhaustive enumeration over explicit boundary alphabets, every case executed on the real code and compared with a reference model written from the property statement"
 CHECKS = {
+ "C09": dict(engine="enum", technique=ENUM,
+   text="router configurations (full products of criterion kinds absent/present/inverted over a small universe, every port representation, route lists: all ordered pairs and triples of a 12-route core x defaults) rendered as JSON, loaded by the real Config.Router and queried through the real GetTCPClient/GetUDPClient with boundary requests and scripted resolvers; a reference returns the set of permitted outcomes",
+   note="GeoIP criteria cannot be exercised (no database in the image); reference leaves evaluation order and error values open"),
+ "C10": dict(engine="enum", technique=ENUM+" (differential across representations)",
+   text="rule sets over a 4-label vocabulary in every insertion order, threshold-straddling sets, 120 text variants x 28 conversion paths, ~30 direct matcher representations and the real converter command; all 65535 ports per port set across bit set / range list / single port / router criteria; all subsets of a prefix vocabulary through text round trips - every representation must agree with the reference on every probe",
+   note="text form may refuse the empty set / empty rule; port 0 is never probed (PortSet.Contains(0) panics by contract)"),
  "C17": dict(engine="vsched", technique=SC+" + explicit-state search of the bounded cache to fixpoint",
    text="the real dns.Resolver runs under the controlled scheduler with a real direct UDP client on loopback and a stub TCP client against a scripted upstream: every script with up to two non-default behaviours per lookup (valid, NXDOMAIN+SOA, NODATA+SOA, SERVFAIL, truncated, foreign ID, foreign source, not-a-response, RA=0, garbage, silence, TCP close mid-message), both arrival orders, UDP/TCP/both; lookup histories around TTL and failure-caching boundaries on the virtual clock; BoundedCache against a reference LRU to fixpoint",
    note="poisoned datagrams carry addresses no acceptable response carries; expiry bound from the statement (smallest answer TTL, else negative/failure caching time)"),
